@@ -100,7 +100,8 @@ CFG = {
                    "SuccinctlyVerif/Model/Utf8.lean", "SuccinctlyVerif/Spec/Utf8.lean"],
     "required_theorems": ["SV.Props.C13.scalar_ok_iff", "SV.Props.C13.avx2_accept_iff", "SV.Props.C13.simd_engine_agrees", "SV.Props.C13.broadword_accept_iff", "SV.Props.C13.engines_agree", "SV.Props.C13.validPrefixLen_spec", "SV.Props.C13.error_linecol", "SV.Props.C13.decode_encode", "SV.Props.C13.encode_decode",
                           "SV.Props.C13.encode_eq_spec", "SV.Props.C13.decode_eq_spec", "SV.Props.C13.spec_decode_encode",
-                          "SV.Props.C13.error_kind_and_offset_partial", "SV.Props.C13.error_offset_refuted"],
+                          "SV.Props.C13.error_kind_and_offset_partial", "SV.Props.C13.error_offset_refuted",
+                          "SV.Props.C13.lanes_generated_eq"],
     "generated": ["C13:"],
     "allow_bv_decide": True,
     "nontrivial": _c13_nontrivial,
@@ -115,6 +116,13 @@ CFG = {
 # file's text does not depend on where the workspace lives
 _REL = os.path.relpath(_SYNTH, _REPO)
 EXTRACT = {
+    # the `err` lane DAG of `check_block`, regenerated from source on every run (tools/rs2lean.py kind
+    # "lanes"): inputs are the chunk lane and the three shifted inputs prev1/prev2/prev3, whose
+    # cross-lane definitions (permute2x128 + alignr) are recorded as source text, not translated
+    "lanes": [
+        ("check_block", "src/text/utf8/simd_x86.rs", "check_block",
+         {"inputs": ["chunk", "prev1", "prev2", "prev3"], "outputs": ["err"]}),
+    ],
     "kernels": [
         ("utf8_non_ascii", _REL, "utf8_non_ascii", None),
         ("utf8_newline_mask", _REL, "utf8_newline_mask", None),
